@@ -239,6 +239,58 @@ def stream_scan(ctx, messages, rng, stream=None):
             {'stream': s.hex(), 'messages': [m.hex() for m in messages]}, signature={'kind': 'stream'})
 
 
+def reused_decoder_history(ctx, generated, rng):
+    from pybufrkit.decoder import Decoder, generate_bufr_message
+    dec = Decoder()
+    pool = rng.sample(generated, min(12, len(generated)))
+    hist = []
+    for step in range(60 if ctx.tier == 'quick' else 600):
+        b, k, spec = rng.choice(pool)
+        info = rng.random() < 0.5
+        ign = rng.random() < 0.4
+        damage = info and rng.random() < 0.5
+        bb = b
+        if damage:
+            fr = msgs.parse_frame(b)
+            s4 = [x for x in fr['sections'] if x[0] == 4]
+            if s4 and s4[0][2] > 4:
+                o = s4[0][1]
+                bb = b[:o + 4] + bytes(rng.randrange(256) for _ in range(s4[0][2] - 4)) + b'XXXX'
+        hist.append({'info_only': info, 'ignore_value_expectation': ign, 'damaged_data': damage, **spec})
+        ctx.case({'history-step': step, **hist[-1]}, nontrivial=True)
+        ctx.count('reused-decoder-step')
+        try:
+            m = dec.process(bb, info_only=info, ignore_value_expectation=ign, wire_template_data=False)
+            got = [msgs.canon_section(x) for x in m.sections]
+            err = None
+        except Exception as e:  # noqa
+            got, err = None, core.err_tag(e)
+        fresh = msgs.impl_decode(b, info_only=False)
+        want = [x['params'] for x in fresh['sections']]
+        bad = err is not None
+        if not bad and info:
+            want03 = [x['params'] for x in fresh['sections'] if x['index'] <= 3]
+            # sections 0-3 as in a full decode; at most the cut-down section 4 header after them
+            bad = got[:len(want03)] != want03 or len(got) > len(want03) + 1
+        elif not bad:
+            bad = got != want
+        if bad:
+            ctx.violation('a Decoder used before for other decodes: %s decode %s (history of %d calls)'
+                          % ('info-only' if info else 'full', 'failed with ' + err if err else 'returned other sections 0-3 than a fresh full decode', len(hist)),
+                          {'history': hist, 'message_hex': bb.hex()}, signature={'kind': 'reused-decoder', 'info': info})
+            return
+    # an info-only scan with the same (used) decoder cuts at the declared lengths
+    msgs_ = [g[0] for g in rng.sample(generated, 3)]
+    stream = b'junk'.join(msgs_)
+    try:
+        got = [m.serialized_bytes for m in generate_bufr_message(dec, stream, info_only=True)]
+    except Exception as e:  # noqa
+        got = core.err_tag(e)
+    if got != msgs_:
+        ctx.violation('info-only scan with a Decoder used before: pieces differ from the declared-length cuts', {'history': hist, 'stream_hex': stream.hex()},
+                      signature={'kind': 'reused-decoder-scan'})
+
+
 def run(ctx):
     ctx.rule = ('every parameter name of every bundled layout x editions 2,3,4 x section 2 absent/present x (%name, %k.name k=-1..6); '
                 'sampled names x non-numeric / blank-padded / signed / underscore indices, missing %, blanks, empty, two dots; '
@@ -294,6 +346,10 @@ def run(ctx):
         if os.path.basename(f) in ('207003.bufr', 'contrived.bufr', 'uegabe.bufr', 'b005_89.bufr'):
             r = check_queries(ctx, 'query-file', b, 0, exprs[:len(names) * 9], True, spec)
             breaks += r or []
+    # one Decoder object reused for full / info-only / expectation-free decodes in random order (as an application
+    # does): every info-only decode must still return the sections 0-3 of a fresh decoder's full decode, must not
+    # read the data section (it succeeds on damaged data) and an info-only scan must cut at the declared lengths
+    reused_decoder_history(ctx, generated, rng)
     # stream scan
     for n in (1, 2, 5):
         stream_scan(ctx, [g[0] for g in rng.sample(generated, n)], rng)
